@@ -354,7 +354,19 @@ class _Gen:
             # a module named like its root package, and a non-ASCII module
             root = s.mods[0]
             m = Mod(len(s.mods), r.choice([root.name, 'é_mod']), root.mid, False, order=order)
+            order += 1
             s.mods.append(m)
+        if self.f.odd_names and r.random() < .25:
+            pk = r.choice([x for x in s.mods if x.is_pkg])
+            s.mods.append(Mod(len(s.mods), '__main__', pk.mid, False, order=order))
+            order += 1
+        if self.f.odd_names and r.random() < .25:
+            # two sibling modules whose names differ only by case
+            pk = r.choice([x for x in s.mods if x.is_pkg])
+            tw = f'tw{len(s.mods)}'
+            s.mods.append(Mod(len(s.mods), tw, pk.mid, False, order=order))
+            s.mods.append(Mod(len(s.mods), tw.upper()[0] + tw[1:], pk.mid, False, order=order + 1))
+            order += 2
 
     def rel_or_abs(self, frm: int, to: int) -> str:
         """module path text usable in a from-import inside module `frm` to reach module `to` (absolute or relative)"""
@@ -557,8 +569,8 @@ class _Gen:
                 form = r.choice(['plain', 'plain', 'as', 'star'] if f.star else ['plain', 'as'])
                 if form == 'star':
                     items.append(Item(kind='import', text=f'from {path} import *', star_from=s.modname(src.mid)))
-                    n, uid, kind = r.choice([e for e in exp if not e[0].startswith('_')] or exp)
-                    if not n.startswith('_'):
+                    pub = [e for e in exp if not e[0].startswith('_')]
+                    for (n, uid, kind) in r.sample(pub, min(len(pub), r.randint(1, 3))):
                         allnames.append(n)
                         s.moved[uid] = (p.mid, n)
                         self.reexported.add(uid)
